@@ -173,7 +173,7 @@ theorem splitToSize_valid (c : SizeConfig) (text : Str) (bs : List Boundary) (hb
     simp only [sp] at hsp
     rw [dif_pos hsp]
     intro p hp; simp at hp; subst hp; exact hv
-  | case4 rem bs h hmax sp hsp chunk rest hchunk ih =>
+  | case4 rem bs h hmax sp hsp chunk rest bs' hchunk ih =>
     rw [splitToSize, if_neg h, if_neg hmax]
     simp only [sp] at hsp
     rw [dif_neg hsp]
@@ -183,7 +183,7 @@ theorem splitToSize_valid (c : SizeConfig) (text : Str) (bs : List Boundary) (hb
     have ht := valid_take_findSplitPointAt c rem hv c.maxValue c.maxUnit
     have hd := valid_drop_of_valid_take rem hv _ ht
     exact ih rfl (valid_trimSpace _ hd)
-  | case5 rem bs h hmax sp hsp chunk rest hchunk ih =>
+  | case5 rem bs h hmax sp hsp chunk rest bs' hchunk ih =>
     rw [splitToSize, if_neg h, if_neg hmax]
     simp only [sp] at hsp
     rw [dif_neg hsp]
